@@ -72,6 +72,9 @@ SANCTIONED = {
     (R, "use_unicode_strikeout"): [("decision", RTRAIT + "start_strikeout", ANY),
                                    ("decision", RTRAIT + "end_strikeout", ANY)],
 }
+# number of decision/value reads reviewed per (field, function); default 1.  A further read of an option in a function
+# that already reads it is a new decision site (what does it govern?) and is not covered by the sanctioned row.
+MAXREADS = {("draw_borders", RTRAIT + "append_columns_with_borders"): 2, ("draw_borders", RTRAIT + "append_vert_row"): 2}
 IGNORED_FIELDS = {("config::Config", "decorator"), ("HtmlContext", "style_data")}
 FLOORS = {(R, "wrap_width"): 1, (R, "pad_block_width"): 1, (R, "use_unicode_strikeout"): 2, (R, "draw_borders"): 5,
           (R, "raw"): 1, (R, "include_link_footnotes"): 2, (R, "wrap_links"): 1, ("HtmlContext", "min_wrap_width"): 1}
@@ -87,6 +90,8 @@ def check(ctx):
     ctx.rule("C15-C", "builder setters write only the field(s) their documentation names; defaults are the documented ones")
     ctx.guard("C15-A", rule_a)
     ctx.guard("C15-B", rule_b)
+    from .. import widths as _w
+    ctx.guard("C15-B", _w.rule_footnote_text_cleaned, "C15-B")
     ctx.guard("C15-C", rule_c)
 
 
@@ -101,6 +106,15 @@ def rule_a(ctx):
             rows = SANCTIONED.get(key0)
             reads = options.classify_reads(F, owner, f["name"])
             ndec = 0
+            per_fn = {}
+            for r in reads:
+                if r["kind"] != "plumbing":
+                    per_fn[fn_key(r["body"])] = per_fn.get(fn_key(r["body"]), 0) + 1
+            for fk_, n_ in sorted(per_fn.items()):
+                cap = max([v for (fld, fn), v in MAXREADS.items() if fld == f["name"] and ends(fk_, fn)] or [1])
+                ctx.check(n_ <= cap, "C15-A", "%s.%s@%s:read-count" % (owner.split("::")[-1], f["name"], fk_), "", fk_,
+                          "option %s is read %d times in this function, %d reviewed: a new place where the option decides "
+                          "something needs review" % (f["name"], n_, cap))
             for r in reads:
                 b = r["body"]
                 fk = fn_key(b)
